@@ -61,6 +61,64 @@ MASKED_CHOICES = [None, (0,), (), (0, 2), (-1,), (1, 3, 0), (2, 2)]
 OOV_CHOICES = [(2,), (), (1, 2), (3, 1, 2), (0,), (1, 1), (4, 2)]
 
 
+NARROW_COUNTS = [17, 26, 100, 127, 128, 255, 256, 300]
+NARROW_DTYPES = {'uint8': 255, 'int8': 127, 'uint16': 65535, 'int16': 32767, 'int32': 2**31 - 1, 'int64': 2**31 - 1}
+
+
+def _narrow_cases(rng, tier):
+  reps = 1 if tier == 'quick' else 4
+  for n in NARROW_COUNTS:
+    for dt, mx in NARROW_DTYPES.items():
+      top = min(n - 1, mx)
+      picks = [0, top, max(top - 1, 0), rng.randrange(n if n - 1 <= mx else mx + 1)]
+      # metrics with class scores: n classes
+      names = ['ConfusionMatrix'] + rng.sample(['CrossEntropyLoss', 'Accuracy', 'TopKAccuracy', 'SequenceTokenAccuracy',
+                                               'SequenceTokenTopKAccuracy', 'SequenceCrossEntropyLoss'], reps)
+      if mx < n:     # the count itself exceeds the dtype: always include the one_hot based cross-entropy metrics
+        names += [m for m in ('CrossEntropyLoss', 'SequenceCrossEntropyLoss') if m not in names]
+      for name in names:
+        case = {'metric': name, 'args': {}, 'dom': None, 'keys': ['y', None], 'narrow': n}
+        t = rng.choice(picks[:3]) if rng.random() < 0.8 else picks[3]
+        if name in USES_PRED_ONE:
+          case['y'] = t
+          case['pred'] = _row(rng, n, 'small')
+          if rng.random() < 0.5:
+            case['pred'][t] = 4          # the target is the unique best class
+          if name == 'TopKAccuracy':
+            case['args']['k'] = rng.choice([1, 2, n - 1, n, 5])
+          if name == 'ConfusionMatrix':
+            case['args']['nc'] = n
+        else:
+          case['y'] = [t, rng.choice(picks), 0]
+          case['args']['masked'] = [0]
+          case['pred'] = [_row(rng, n, 'small') for _ in range(3)]
+          case['pred'][0][t] = 4
+          if name == 'SequenceTokenTopKAccuracy':
+            case['args']['k'] = rng.choice([1, 2, n])
+          if name in SEQ_TOKEN:
+            case['args']['pp'] = rng.random() < 0.5
+        case['form'] = {'layout': 'C', 'arr': rng.choice(['jax', 'numpy']), 'tdtype': dt, 'pdtype': 'float32', 'ctor': 'kw', 'extra': False}
+        yield case
+      # prediction-free sequence metrics: token ids at the top of the dtype, masked / eos / oov values there too
+      name = rng.choice(list(NO_PRED))
+      hi = min(mx, 10 * n)
+      case = {'metric': name, 'args': {'masked': [hi]}, 'dom': None, 'keys': ['y', None], 'pred': None, 'narrow': n,
+              'y': [hi, hi - 1, 0, hi - 1, rng.choice([1, hi])]}
+      if name == 'SequenceTruncationRate':
+        case['args']['eos'] = rng.choice([hi - 1, 1])
+      if name == 'SequenceTokenOOVRate':
+        case['args'].update({'oovs': [hi - 1], 'pp': rng.random() < 0.5})
+      case['form'] = {'layout': 'C', 'arr': rng.choice(['jax', 'numpy']), 'tdtype': dt, 'pdtype': 'float32', 'ctor': 'kw', 'extra': False}
+      yield case
+      # PerDomainMetric with n domains, the domain id in the narrow dtype
+      case = _one_case(rng, rng.choice(['Accuracy', 'SequenceTokenCount', 'SequenceLength', 'TopKAccuracy']), c=3, length=3)
+      case.pop('sweep', None)
+      d = rng.choice([0, top, max(top - 1, 0)])
+      case.update({'dom': [n, d], 'dkey': 'domain_id', 'narrow': n})
+      case['form'].update({'ddtype': dt, 'arr': rng.choice(['jax', 'numpy']), 'extra': False})
+      yield case
+
+
 OFFSETS = [10**4, -10**5, 10**6, 8 * 10**6, -16000000]
 
 
@@ -297,6 +355,10 @@ def generate(tier, rng):
         case['args']['oovs'] = [1]
       case['twin'] = field
       yield case
+  # silent narrowing (round-6 seed C14-x1): integer targets / token ids / domain ids in NARROW dtypes with class /
+  # vocabulary / domain counts so large that target * count, target + offset or the count itself exceeds the dtype
+  for case in _narrow_cases(rng, tier):
+    yield case
   # non-finite base statistics (a -inf logit at a real target: loss = +inf), alone and under PerDomainMetric:
   # the other domains' slots must hold exact zeros, not inf * 0 = NaN
   for i in range({'quick': 12, 'thorough': 60}.get(tier, 100)):
@@ -416,7 +478,10 @@ def _example(case):
     target = wrap(np.array(case['y'], dtype=getattr(np, form['tdtype'])))
   ex = {tk: target}
   if case['dom'] is not None:
-    ex[case.get('dkey', 'domain_id')] = wrap(np.array(case['dom'][1], dtype=np.int32)) if form['arr'] == 'jax' else int(case['dom'][1])
+    if 'ddtype' in form:
+      ex[case.get('dkey', 'domain_id')] = wrap(np.array(case['dom'][1], dtype=getattr(np, form['ddtype'])))
+    else:
+      ex[case.get('dkey', 'domain_id')] = wrap(np.array(case['dom'][1], dtype=np.int32)) if form['arr'] == 'jax' else int(case['dom'][1])
   if case.get('dom2'):
     ex['outer_domain'] = wrap(np.array(case['dom2'][1], dtype=np.int32))
   if form['arr'] == 'numpy':
@@ -461,6 +526,8 @@ def _eval(metric, ex, pred):
     return _stat_obs(metric.evaluate_example(ex, pred))
   except ValueError:
     return {'error': 'ValueError'}
+  except OverflowError as e:
+    return {'error': 'OverflowError', 'message': str(e)[:120]}
 
 
 def _leaves_np(tree):
@@ -785,6 +852,8 @@ def _corner(case):
     tags.append('nested')
   if case.get('nonfinite'):
     tags.append('nonfinite-base')
+  if case.get('narrow'):
+    tags.append('narrow-int')
   return tags
 
 
@@ -865,7 +934,26 @@ def _extra_oracle(case, obs, ref):
   return out
 
 
+def _narrow_key(case, obs, key):
+  """Known consequences of 8-bit integer inputs (jax.nn.one_hot builds arange(count) in the INPUT's dtype; array indexing
+  normalises the index in its own dtype) get their own specific keys."""
+  form = case.get('form') or {}
+  eight = ('uint8', 'int8')
+  if key.endswith(('.accum', '.weight', '.result', '.accum.nonfinite')):
+    if case['metric'] in CE_METRICS and form.get('tdtype') in eight and case['narrow'] > 256:
+      return 'narrow-int.one-hot-wraps'
+    if case['dom'] is not None and form.get('ddtype') in eight and case['dom'][0] > 256:
+      return 'narrow-int.one-hot-wraps'
+  if key.endswith('.error') and obs.get('error') == 'OverflowError' and case['metric'] == 'ConfusionMatrix' \
+      and form.get('tdtype') == 'int8' and case['args']['nc'] >= 128:
+    return 'narrow-int.index-overflow'
+  return key
+
+
 def oracle(case, obs):
+  if case.get('narrow'):
+    c2 = {k: v for k, v in case.items() if k != 'narrow'}
+    return [(_narrow_key(case, obs, k), w) for k, w in oracle(c2, obs)]
   if case.get('kind') == 'grid':
     want = _ref_grid(case)
     bad = [i for i, (a, b) in enumerate(zip(obs['grid'], want)) if a != b]
@@ -942,6 +1030,8 @@ def _ranks(case):
 def encode(case, obs):
   if case.get('kind') == 'flags':
     return None
+  if case.get('narrow') and (case['metric'] == 'ConfusionMatrix' and case['narrow'] > 30):
+    return None     # a 100 x 100 ... 300 x 300 matrix: judged by the oracle (python ints), too large as a Coq literal
   if case.get('kind') == 'grid':
     b = f'KGridTopK {case["n"]}%nat' if case['which'] == 'topk' else f'KGridSeq {case["n"]}%nat'
     vals = '[' + '; '.join(f'{int(v)}' for v in obs['grid']) + ']'
